@@ -248,6 +248,11 @@ func encodeData(ctx context.Context, typeName string, v interface{}, allTypes Ty
 	log.L(ctx).Tracef("hashType(%s): %s", typeName, typeHashed)
 	// Encode the data of the struct, and write it after the hash of the type
 	for _, tm := range t {
+		if tm == nil {
+			// only reachable for a type whose name contains "[", which the dependency walk in
+			// encodeType looks up under its stripped name and so does not check
+			return nil, i18n.NewError(ctx, signermsgs.MsgEIP712NullTypeMember, typeName)
+		}
 		b, err := encodeElement(ctx, tm.Type, vMap[tm.Name], allTypes, nextCrumb(breadcrumbs, tm.Name))
 		if err != nil {
 			return nil, err
